@@ -199,22 +199,82 @@ def _alias_substitute(log):
     return stub(substitute)
 
 
+# a variable that matches the expression may be defined by two equations of a perfectly regular system (`_v = 2*x + 1; _v = 3*z`):
+# it is eliminated ONCE, the second equation is kept (it becomes `value1 - value2 = 0`).  The real extract_assignment closure
+# runs here (it looks the candidates up in the LIVE states / alg_states dictionaries the loop shrinks).
+REAL_LISTS = [
+    ["_a-v1", "_a-v2"], ["_s-v1", "_s-v2"], ["_a-v1", "v2-_a", "_s-v3"], ["_a", "_a-v1"], ["_a-_s", "_s-v1"], ["_a-b", "b-_a"],
+    ["_s-v1", "_a-_s", "_s+v2"], ["_a+v1", "b-v2", "_a-b"], ["v1-v2", "_s-_a", "_s-_a"],
+]
+
+
+def h_eliminable_counting_real(eng):
+    log = SubstLog()
+    M.install(eng, {"substitute": log.stub(), "is_equal": stub(lambda eng, *a: True), "veccat": stub(lambda eng, *a: E("opaque", value=z3.RealVal(0)))})
+    eng.ext_modules["re"].attrs["compile"] = stub(lambda eng, *a: Pattern(eng))
+    lst = REAL_LISTS[eng.choice(len(REAL_LISTS))]
+    eng.input("equations", lst)
+    va, vb, vs = variable("_a"), variable("b"), variable("_s")
+    ds = variable("der(_s)")
+    S = {"_a": va.fields["symbol"], "b": vb.fields["symbol"], "_s": vs.fields["symbol"]}
+    for i in (1, 2, 3):
+        S["v%d" % i] = E("opaque", value=eng.fresh_real("v%d" % i))
+
+    def mk(t):
+        if "-" in t:
+            l, r = t.split("-")
+            return E("OP_SUB", S[l], S[r])
+        if "+" in t:
+            l, r = t.split("+")
+            return E("OP_ADD", S[l], S[r])
+        return S[t]
+    eqs = [mk(t) for t in lst]
+    eng.call_contracts["get_derivative"] = lambda eng, args, kw: E("opaque", value=z3.RealVal(99))
+    delay_log = []
+    model = VObj(VClass("Model"), {"states": VList([vs]), "der_states": VList([ds]), "alg_states": VList([va, vb]), "equations": VList(list(eqs)),
+                                   "initial_equations": VList([E("opaque", value=z3.RealVal(7))]), "delay_arguments": VList([("d",)])})
+    model.cls.attrs["_substitute_delay_arguments"] = _delay_recorder(delay_log)
+    opts = VDict([("eliminable_variable_expression", "_.*"), ("expand_mx", True)])
+    try:
+        eng.exec_fragment(MODEL, "Model._simplify_once", M.block_selector("eliminable_variable_expression"), {"self": model, "options": opts},
+                          label="eliminable-variable-block")
+    except PyRaise as e:
+        eng.prove("elimreal.no_exception", False, exc=repr(e.exc))
+        return
+    eng.cover("count.eliminable_real")
+    left = model.fields["equations"]
+    left_items = left.items if isinstance(left, VList) else []
+    states, algs, ders = model.fields["states"].items, model.fields["alg_states"].items, model.fields["der_states"].items
+    dropped = len(eqs) - len(left_items)
+    eng.prove("elimreal.one_unknown_per_dropped_equation", z3.BoolVal(dropped == 3 - (len(states) + len(algs))), dropped=dropped, unknowns_left=len(states) + len(algs))
+    eng.prove("elimreal.state_goes_with_its_derivative", z3.BoolVal((vs in states) == (ds in ders) and len(ders) == len(states)))
+    eng.prove("elimreal.kept_equations_are_original_ones_in_order", z3.BoolVal(all(any(e is q for q in eqs) for e in left_items) and
+                                                                             [i for e in left_items for i, q in enumerate(eqs) if q is e] == sorted(i for e in left_items for i, q in enumerate(eqs) if q is e)))
+    # (P, precondition of ca.substitute "the input expressions are independent") no symbol is substituted twice in one call,
+    # and what is substituted is no longer an unknown
+    indep = all(len({id(v) for v in vars_}) == len(vars_) for exprs, vars_, vals in log.calls) and all(len({id(v) for v in vs_}) == len(vs_) for vs_ in delay_log)
+    eng.prove("elimreal.no_symbol_substituted_twice", z3.BoolVal(bool(indep)))
+    unknown_syms = [v.fields["symbol"] for v in states + algs + ders]
+    eng.prove("elimreal.substituted_symbols_are_no_longer_unknowns", z3.BoolVal(all(not any(g is u for u in unknown_syms) for exprs, vars_, vals in log.calls for g in vars_)))
+
+
 HARNESSES = [("Model._simplify_once#eliminate_constant_assignments/counting", h_constant_counting),
              ("Model._simplify_once#eliminable_variable_expression/counting", h_eliminable_counting),
+             ("Model._simplify_once#eliminable_variable_expression/counting with the real extract_assignment", h_eliminable_counting_real),
              ("Model._simplify_once#detect_aliases/counting", h_alias_counting)]
-EXPECTED_COVER = {"count.const", "count.eliminable", "count.alias"}
+EXPECTED_COVER = {"count.const", "count.eliminable", "count.eliminable_real", "count.alias"}
 BOUNDED = True
 LEVEL = "proof"
 TRUSTED = ["pyvc VC generator", "z3 5.1.0", "MX node algebra of contracts/mx_algebra.py", "ca.substitute(exprs, vars, values) removes the substituted symbols from exprs",
            "AliasRelation (verified under C17) -- here its real code is executed concretely"]
 ASSUMPTIONS = [
-    "equation lists are enumerated (2-3 equations; every matcher shape; alias chains through a state, through a derivative and a second state, through a parameter); 'regular' excludes a variable defined twice and a repeated equation",
+    "equation lists are enumerated (2-3 equations; every matcher shape; alias chains through a state, through a derivative and a second state, through a parameter); in the harness with extract_assignment under contract 'regular' excludes a variable defined twice; the harness that runs the REAL extract_assignment closure includes double definitions (the variable must be eliminated once and the second equation kept); a repeated alias equation is excluded",
     "that the residual functions can then be BUILT (ca.Function without free symbols) is CasADi's; decided here: every eliminated symbol is among the variables of every substitute call",
 ]
 EXPLANATION = "Counting and self-containedness of the three elimination blocks."
 MANIFEST = {
     "category": "proof",
     "text": "The three elimination blocks of simplify() are extracted structurally and executed on enumerated equation lists with symbolic leaves and options (the alias block with the real nested functions and the real AliasRelation): the number of dropped equations equals the number of unknowns removed (a state goes with its derivative, constants are kept), only algebraic unknowns are eliminated by aliasing, and every eliminated symbol is passed to the substitute calls for equations, initial equations and delay arguments. A bounded replay checks unknowns - equations and residual construction on generated square models.",
-    "note": "Enumerated equation lists; CasADi's substitute and Function construction assumed; regularity (no double definitions) is a precondition.",
+    "note": "Enumerated equation lists; CasADi's substitute and Function construction assumed; a variable defined by two equations is eliminated once (real extract_assignment closure on the live dictionaries), no symbol is substituted twice.",
     "technique": "contract-based deductive verification: structural fragment extraction and symbolic execution of the elimination blocks with recording stubs, z3",
 }
